@@ -12,6 +12,7 @@ import os
 
 from . import common as cm
 from . import c04_s2s as S
+from . import c04_db as D
 
 ANCHORS = S.ANCHORS
 
@@ -31,6 +32,16 @@ DB_EXEC2 = ("import numpy as np\nfrom pkg import b\nfrom n import b\nfrom qq imp
 U_NAM, U_PAR = "\u0928\u093e\u092e", "paral\u00b7lel"
 DB_EXEC_U = DB_EXEC + "import %s\nfrom pkg import %s\n" % (U_NAM, U_PAR)
 U_STR = ["\u65e5\u672c\u8a9e", "\u20ac", "\u201cq\u201d", "\U0001f600", "\U0001d4b3"]
+
+
+# a fourth universe: __forget_imports__ (star and plain entries) with look-alike module names: `js` is forgotten,
+# `jsx` is not; after forgetting  loads, b: 2 candidates;  dumps, c, e: exactly one;  window, deep, d: none
+DB_EXEC_F = ("import numpy as np\nfrom jsx import loads, dumps\nfrom pk2 import loads\nfrom js import window\nfrom js.sub import deep\n"
+             "from js import c\nfrom pkg import c\nfrom m import d\nfrom n import e\nfrom pkg.sub import e\nfrom pkg import b\nfrom jsx import b\n"
+             "__forget_imports__ = ['from js import *', 'from m import d', 'n.e']\n")
+# `pk` is forgotten, `pkg` and `pk2` are not:  b, c, d, f: exactly one;  g2: none
+DB_EXEC_F2 = ("import numpy as np\nfrom pkg import b, c\nfrom pk import c\nfrom pk.x import d\nfrom m import d\nfrom pk import g2\nfrom pk2 import f\n"
+              "__forget_imports__ = ['from pk import *']\n__mandatory_imports__=['from __future__ import division']\n")
 
 
 def db_index(dbtext):
@@ -62,7 +73,7 @@ UNIQUE = {"np": ("numpy", "np"), "osx": ("osx", "osx"), "b": ("pkg.b", "b"), "c"
           "f": ("pkg.sub", "f")}
 AMBIG = {"e"}
 UNKNOWN = {"g", "zz", "pkg", "aa"}          # `import pkg.util` / `import aa.bb` are looked up by first component only
-ROOTS = ("numpy", "osx", "pkg", "m", "n", "aa", "qq", "\u0928\u093e\u092e")
+ROOTS = ("numpy", "osx", "pkg", "m", "n", "aa", "qq", "\u0928\u093e\u092e", "js", "jsx", "pk", "pk2", "decoy", "zz", "g")
 LOCALS = ["v1", "v2", "v3"]
 
 
@@ -84,9 +95,10 @@ def existing_import(r):
                      "from qq.sub import zq4", "from pkg import zq5"])
 
 
-def gen_exec(r, uni=False):
+def gen_exec(r, uni=False, pool=None):
     lines = []
-    pool = (list(UNIQUE) * 2 + [U_NAM, U_PAR] * 3 + list(AMBIG) + ["g", "zz"] + LOCALS) if uni else None
+    if uni:
+        pool = list(UNIQUE) * 2 + [U_NAM, U_PAR] * 3 + list(AMBIG) + ["g", "zz"] + LOCALS
     k = r.random()
     if k < .2:
         lines.append('"""doc"""')
@@ -147,25 +159,81 @@ def gen_exec(r, uni=False):
     return src
 
 
+ALLFLAGS = {"add_missing": True, "remove_unused": True, "add_mandatory": True}
+
+
+def gen_src(r, uni=False, pool=None):
+    for _ in range(30):
+        src = gen_exec(r, uni, pool)
+        if S.compilable(src):
+            return src
+    return "np.x\n"
+
+
+def gen_seq(r):
+    """2-3 modules to be tidied one after the other in ONE process, with overlapping names: what one module defines
+    at top level (class, def, assignment, __all__, import) another one reads - inside function bodies and outside -
+    without binding it"""
+    names = list(UNIQUE)
+    r.shuffle(names)
+    shared = names[:3]
+    mods = []
+    for k in range(r.choice([2, 2, 3])):
+        body = [l for l in gen_src(r).rstrip("\n").split("\n")
+                if not l.startswith(('"""', '"second"', "from __future__", "#!"))]
+        lines, tail = [], []
+        for j, nm in enumerate(shared):
+            role = r.choice(["define", "read_in_def", "read_in_def", "read", "none"]) if k else r.choice(["define", "define", "read_in_def"])
+            if role == "define":                   # definitions first: a read before a later definition is F10's business
+                lines += r.choice([["class %s:" % nm, "    z = 1"], ["def %s(p=1):" % nm, "    return p"], ["%s = 1" % nm],
+                                   ["__all__ = ['%s']" % nm, "%s = 2" % nm], ["class %s(object):" % nm, "    def m(self):", "        return 1"]])
+            elif role == "read_in_def":
+                fn = "sq%d_%d" % (k, j)
+                body += ["def %s(p=1):" % fn, "    return %s.x" % nm]
+                tail.append("%s()" % fn)
+            elif role == "read":
+                body.append("v1 = %s.y" % nm)
+        lines += body
+        src = "\n".join(lines + tail) + "\n"
+        mods.append(src if S.compilable(src) else "np.x\n")
+    return mods
+
+
 def gen_cases(ctx, n):
     cases = []
     for i in range(n):
         r = cm.rng(ctx.seed, "c04", i)
+        k = i % 20
+        fl = dict(ALLFLAGS)
+        par = r.choice(S.PARAMS)
+        if k == 19:                                       # sequences of modules in one process
+            db = r.choice([DB_EXEC, DB_EXEC_MAND, DB_EXEC2])
+            cases.append({"kind": "tidy", "stream": "seq", "i": i, "srcs": gen_seq(r), "src": "", "db": db, "flags": fl, "params": par})
+            continue
+        if k in (16, 17):                                 # databases with __forget_imports__
+            db = r.choice([DB_EXEC_F, DB_EXEC_F, DB_EXEC_F2])
+            pool = D.raw_names(db) * 3 + ["zz", "g"] + LOCALS
+            cases.append({"kind": "tidy", "stream": "forget", "i": i, "src": gen_src(r, False, pool), "db": db, "flags": fl, "params": par})
+            continue
+        if k in (14, 15, 18):                             # the database is found the way the tool finds it: PYFLYBY_PATH
+            base = r.choice([DB_EXEC, DB_EXEC_MAND, DB_EXEC2, DB_EXEC_F, DB_EXEC_F2])
+            tree, entries = D.gen_tree(r, base)
+            pool = D.raw_names(base) * 3 + ["zz", "g"] + LOCALS
+            c = {"kind": "tidy", "stream": "dbdir", "i": i, "src": gen_src(r, False, pool), "dbtree": tree, "dbpath": entries,
+                 "db": D.reached_text(tree, entries), "flags": fl, "params": par, "cli": k == 18}
+            if c["cli"]:
+                c["flags"] = dict(fl, remove_unused="AUTOMATIC")
+                c["params"] = {"align_imports": [32], "from_spaces": 3, "separate_from_imports": False}
+            cases.append(c)
+            continue
         uni = r.random() < .2
-        for _ in range(30):
-            src = gen_exec(r, uni)
-            if S.compilable(src):
-                break
-        else:
-            src = "np.x\n"
-        fl = {"add_missing": True, "remove_unused": True, "add_mandatory": True}
-        k = i % 10
+        src = gen_src(r, uni)
         if k == 7:
             fl = S.gen_flags(r)
         db = r.choice([DB_EXEC, DB_EXEC, DB_EXEC_MAND, DB_EXEC_MAND2, DB_EXEC2, DB_EXEC2])
         if uni:
             db = DB_EXEC_U
-        c = {"kind": "tidy", "stream": "exec-unicode" if uni else "exec", "i": i, "src": src, "db": db, "flags": fl, "params": r.choice(S.PARAMS)}
+        c = {"kind": "tidy", "stream": "exec-unicode" if uni else "exec", "i": i, "src": src, "db": db, "flags": fl, "params": par}
         if k == 8:
             c["filename"] = r.choice(["/nonexistent-verif/pkgdir/__init__.py", "/nonexistent-verif/.pyflyby/x.py",
                                       "/nonexistent-verif/pkgdir/mod.py"])
@@ -195,6 +263,20 @@ WITNESSES = [
      "flags": {"add_missing": True, "remove_unused": True, "add_mandatory": False}, "params": None},
     {"kind": "tidy", "stream": "witness", "w": "utf8", "src": 'v1 = "\u65e5\u672c\u8a9e"; import qq; v2 = %s.x  # \U0001f600\n%s.y\n' % (U_NAM, U_PAR), "db": DB_EXEC_U,
      "flags": {"add_missing": True, "remove_unused": True, "add_mandatory": False}, "params": None},
+    # one process, two modules: the first defines `class np`, the second reads np only inside a function body
+    {"kind": "tidy", "stream": "seq", "w": "seq", "srcs": ["class np:\n    z = 1\nv1 = np\n", "def fn0(p=1):\n    return np.x\nfn0()\n"], "src": "",
+     "db": DB_EXEC, "flags": {"add_missing": True, "remove_unused": True, "add_mandatory": False}, "params": None},
+    # star __forget_imports__ for `js`; `jsx` only looks alike: loads stays ambiguous, dumps stays known
+    {"kind": "tidy", "stream": "forget", "w": "forget", "src": "loads.x\ndumps.y\nwindow.z\nb\nc\n", "db": DB_EXEC_F,
+     "flags": {"add_missing": True, "remove_unused": True, "add_mandatory": False}, "params": None},
+    # the only import of np lives under a symlinked directory of the database directory; b has one candidate in a
+    # regular file and one under the symlink
+    {"kind": "tidy", "stream": "dbdir", "w": "symlink", "src": "np.x\nb.y\n", "cli": True,
+     "dbtree": [{"p": "db/known.py", "text": "from pkg import b\n"}, {"p": "ext/dir/e1.py", "text": "import numpy as np\nfrom n import b\n"},
+                {"p": "db/linkdir", "link": "ext/dir"}, {"p": "db/.hidden.py", "text": "import zz\n"}],
+     "dbpath": ["db"], "db": "from pkg import b\nimport numpy as np\nfrom n import b\n",
+     "flags": {"add_missing": True, "remove_unused": "AUTOMATIC", "add_mandatory": True},
+     "params": {"align_imports": [32], "from_spaces": 3, "separate_from_imports": False}},
     # F23: unused import in a block that starts on the line where the previous block's text ends
     {"kind": "tidy", "stream": "witness", "w": "F23", "src": "import qq\nv1 = 1; import zz\nqq\n", "db": DB_EXEC,
      "flags": {"add_missing": True, "remove_unused": True, "add_mandatory": False}, "params": None},
@@ -306,12 +388,72 @@ def run_program(src):
             del sys.modules[k]
 
 
-def impl_case(c):
+FRESH = ("import sys, json\nfrom harness import c04_s2s as S\nc = json.load(sys.stdin)\n"
+         "print(json.dumps(S.run_tool('tidy', c['src'], c['db'], c['flags'], c['params'], None, c.get('filename'))))\n")
+
+
+def fresh_tidy(c, src):
+    """the same call in a process of its own"""
+    import subprocess
+    import sys
+    p = subprocess.run([sys.executable, "-c", FRESH], input=json.dumps(dict(c, src=src)), stdout=subprocess.PIPE,
+                       stderr=subprocess.PIPE, text=True, timeout=30)
+    try:
+        return json.loads(p.stdout.strip().split("\n")[-1])
+    except Exception:
+        return {"exc": "fresh process failed", "msg": p.stderr[-300:]}
+
+
+def _one(c):
     res = S.impl_case(c)
     res["run_src"] = run_program(c["src"])
     if res.get("out") is not None:
         res["run_out"] = run_program(res["out"])
     return res
+
+
+def _cli(c, root):
+    import subprocess
+    import sys
+    path = c["filename"]
+    os.makedirs(os.path.dirname(path), exist_ok=True)
+    with open(path, "w") as f:
+        f.write(c["src"])
+    env = dict(os.environ, PYFLYBY_LOG_LEVEL="ERROR")
+    p = subprocess.run([sys.executable, os.path.join(os.environ["VERIF_REPO"], "bin", "tidy-imports"), "--print", "--no-canonicalize", path],
+                       stdin=subprocess.DEVNULL, stdout=subprocess.PIPE, stderr=subprocess.PIPE, text=True, env=env,
+                       cwd=os.path.dirname(path), timeout=25)
+    return {"rc": p.returncode, "stdout": p.stdout, "stderr": p.stderr[-400:].replace(root, "<tmp>")}
+
+
+def impl_case(c):
+    if "srcs" in c:                                        # a sequence: every module in this very process, in order
+        seq = [_one(dict(c, src=s)) for s in c["srcs"]]
+        for s, im in zip(c["srcs"], seq):
+            im["fresh"] = fresh_tidy(c, s)
+        return {"seq": seq}
+    if "dbtree" in c:                                      # the database is looked up through PYFLYBY_PATH on disk
+        import shutil
+        import tempfile
+        root = tempfile.mkdtemp(prefix="verif-c04-")
+        old = os.environ.get("PYFLYBY_PATH")
+        try:
+            D.materialise(root, c["dbtree"])
+            os.environ["PYFLYBY_PATH"] = ":".join(os.path.join(root, e) for e in c["dbpath"])
+            c2 = dict(c, dbroot=root, filename=os.path.join(root, "work", "mod.py"))
+            res = _one(c2)
+            if c.get("cli"):
+                res["cli"] = _cli(c2, root)
+                if res["cli"]["rc"] == 0:
+                    res["run_cli"] = run_program(res["cli"]["stdout"])
+            return res
+        finally:
+            if old is None:
+                os.environ.pop("PYFLYBY_PATH", None)
+            else:
+                os.environ["PYFLYBY_PATH"] = old
+            shutil.rmtree(root, ignore_errors=True)
+    return _one(c)
 
 
 # ---------------------------------------------------------------------------------------------
@@ -353,8 +495,11 @@ def oracle(c, im):
         return [("output_parses", "output of tidy does not parse")]
     # never_guess, straight from the output text and the database text: a name the tool newly binds by a
     # top-level import has exactly one database entry and is bound to that entry (or is a mandatory import)
-    idx = db_index(c.get("db", ""))
-    mand = db_mandatory(c.get("db", "")) if fl.get("add_mandatory", True) else set()
+    # candidates per name: from the database TEXT (for dbdir cases: of the files the search path reaches), after
+    # __forget_imports__ by dotted components - harness/c04_db.py, no pyflyby involved
+    idx, mand = D.effective(c.get("db", ""))
+    if not fl.get("add_mandatory", True):
+        mand = set()
     unique = {n for n, v in idx.items() if len(set(v)) == 1}
     for nme in sorted(set(after) - set(before)):
         if nme in mand:
@@ -395,37 +540,78 @@ def classify_known(c, im, clause, detail):
 
 # ---------------------------------------------------------------------------------------------
 
+def expand(cases, impl):
+    """sequence cases -> one (original case, per-module case, result) per module"""
+    flat = []
+    for c, im in zip(cases, impl):
+        if isinstance(im, dict) and "seq" in im:
+            for k, (s, sub) in enumerate(zip(c["srcs"], im["seq"])):
+                flat.append((c, dict({x: y for x, y in c.items() if x != "srcs"}, src=s, seq_index=k), sub))
+        else:
+            flat.append((c, c, im))
+    return flat
+
+
+def extra_oracle(c, im):
+    """the two clauses that need a second run: history independence (sequences), the real CLI (dbdir)"""
+    bad = []
+    if "fresh" in im:
+        fr = im["fresh"]
+        if fr.get("out") != im.get("out") or fr.get("exc") != im.get("exc"):
+            bad.append(("independent_of_history", "module %d of the sequence: tidied after the others %r, tidied in a fresh process %r"
+                        % (c.get("seq_index", -1), im.get("out") or im.get("exc"), fr.get("out") or fr.get("exc"))))
+    if "cli" in im:
+        cli = im["cli"]
+        if cli["rc"] != 0:
+            bad.append(("cli_runs", "bin/tidy-imports --print: rc %s, stderr %r" % (cli["rc"], cli["stderr"][-200:])))
+        else:
+            for clause, detail in oracle(c, dict(im, out=cli["stdout"], run_out=im.get("run_cli"))):
+                bad.append((clause + "(bin/tidy-imports)", detail))
+    return bad
+
+
 def check_cases(ctx, cases, tag="tidy"):
-    impl = cm.run_impl("c04", "impl_case", cases, timeout_case=40)
-    main, attrs, ne = S.evaluate_models(cases, impl)
-    for c, im, mv, av in zip(cases, impl, main, attrs):
+    impl = cm.run_impl("c04", "impl_case", cases, timeout_case=90)
+    flat = expand(cases, impl)
+    main, attrs, ne = S.evaluate_models([x[1] for x in flat], [x[2] for x in flat])
+    for (orig, c, im), mv, av in zip(flat, main, attrs):
         if "__exc__" in im or "__timeout__" in im:
-            ctx.disagreement("harness:implementation-side capture failed", c, im, None)
+            ctx.disagreement("harness:implementation-side capture failed", orig, im, None)
             continue
         S.compare(ctx, c, im, mv, av, tag)
         S.count_kinds(ctx, c, im)
+        ctx.bump("stream:" + str(c.get("stream")))
         nontriv = bool(im.get("adds")) or bool((im.get("scan") or {}).get("unused"))
         ctx.count(c, nontriv)
         if im.get("exc"):
-            ctx.violation("no_internal_error(C03)", c, {"raised": im["exc"], "msg": im.get("msg")})
+            ctx.violation("no_internal_error(C03)", orig, {"raised": im["exc"], "msg": im.get("msg")})
             continue
         rs = im.get("run_src") or {}
         ctx.bump("input_runs" if "unbound" in rs else "input_does_not_run")
-        for clause, detail in oracle(c, im):
+        found = oracle(c, im)
+        if c.get("stream") == "seq":
+            # these modules rebind database names on purpose (class np, __all__ = ['osx'] ...): the execution and
+            # unused-binding clauses assume they do not; what is judged is never_guess and history independence
+            found = [x for x in found if x[0] == "never_guess"]
+        for clause, detail in found + extra_oracle(c, im):
             fid = classify_known(c, im, clause, detail)
             if fid:
                 ctx.known_hit(fid, detail)
                 ctx.bump("known:" + fid)
             else:
-                ctx.violation(clause, c, detail)
+                ctx.violation(clause, orig, detail)
         if nontriv:
             ctx.sample({"src": c["src"], "out": im.get("out"), "log": im.get("adds")}, limit=3)
     return ne
 
 
 def run(ctx):
-    n = int(os.environ.get("VERIF_N", 800 if ctx.quick else 15000))
-    ctx.coverage["rule"] = ("executable generated modules (prologues, imports before / between / after uses, `;` lines, defs, "
+    n = int(os.environ.get("VERIF_N", 800 if ctx.quick else 10000))
+    ctx.coverage["rule"] = ("streams: exec 70% (20% of it with non-ASCII), forget 10% (databases with star / plain __forget_imports__ and look-alike "
+                            "module names), dbdir 15% (database looked up through PYFLYBY_PATH: nested directories, symlinked directory and file, "
+                            "hidden / non-.py decoys; a third of them also through bin/tidy-imports --print), seq 5% (2-3 modules with overlapping "
+                            "names tidied in one process, each compared with a fresh process); "
+                            "executable generated modules (prologues, imports before / between / after uses, `;` lines, defs, "
                             "classes, multi-line expressions) x databases over a synthetic universe (unique / ambiguous / absent / "
                             "dotted entries / aliases / mandatory __future__) x flag combinations (10%) x __init__.py/.pyflyby paths (10%); "
                             "non-trivial = the tool added an import or the analysis reported an unused import")
@@ -450,10 +636,11 @@ def run(ctx):
 
 def replay(payload):
     case = payload.get("case") or payload["disagreements"][0]["case"]
-    impl = cm.run_impl("c04", "impl_case", [case], jobs=1)
-    main, attrs, _ = S.evaluate_models([case], impl)
-    im = impl[0]
-    print(json.dumps({"case": case,
-                      "impl": {k: im.get(k) for k in ("out", "exc", "msg", "adds", "scan", "run_src", "run_out")},
-                      "model": main[0], "oracle": oracle(case, im) if "__exc__" not in im else None}, indent=1))
+    impl = cm.run_impl("c04", "impl_case", [case], jobs=1, timeout_case=90)
+    flat = expand([case], impl)
+    main, attrs, _ = S.evaluate_models([x[1] for x in flat], [x[2] for x in flat])
+    for (orig, c, im), mv in zip(flat, main):
+        print(json.dumps({"case": c,
+                          "impl": {k: im.get(k) for k in ("out", "exc", "msg", "adds", "scan", "run_src", "run_out", "fresh", "cli")},
+                          "model": mv, "oracle": (oracle(c, im) + extra_oracle(c, im)) if "__exc__" not in im else None}, indent=1))
     return 0
